@@ -46,7 +46,7 @@ def run(tier, seed, work, replay):
         {"kind": "otp", "origin": "day-reset", "steps": sum([[F, W] for _ in range(4)], []) + [{"op": "wait", "d": 90000}, F, W, T]},
     ]
     n, depth = (25, 30) if tier == "quick" else (300, 45)
-    cases = [{"kind": "bucket", "burst": 5, "rate": 2, "sequential": 36 if tier == "quick" else 120, "pauseEvery": 12, "pauseMs": 1500,
+    cases = [{"kind": "bucket", "burst": 12, "rate": 2, "sequential": 36 if tier == "quick" else 120, "pauseEvery": 12, "pauseMs": 1500,
               "concurrentEach": 25 if tier == "quick" else 120}] + systematic + simulate(work, n, depth, seed)
     cpath = work.path("cases.ndjson")
     E.write_ndjson(cpath, cases)
